@@ -390,6 +390,54 @@ theorem to_long_irregular_length (obs : List (ℕ × Obs)) :
     congr 1
     exact length_filterMap_some (fun pt y => (lab, pt, y)) _
 
+/-- Open finding (ids are positions): with consecutive labels `0, 1, …` the table of the
+tree with the label-agnostic iterator is the specified one … -/
+theorem to_long_ids_partial (obs : List (ℕ × Obs))
+    (h : obs.map Prod.fst = List.range obs.length) : toLongIrrImpl obs = toLongIrr obs := by
+  unfold toLongIrrImpl
+  congr 1
+  unfold relabel
+  apply List.ext_getElem
+  · simp
+  · intro i h1 h2
+    have hi : i < obs.length := by simpa using h2
+    have : (obs.map Prod.fst)[i]'(by simpa using hi) = i := by
+      simp only [h, List.getElem_range]
+    simp only [List.getElem_map] at this
+    simp only [List.getElem_map, List.getElem_zipIdx, Nat.zero_add]
+    rw [← this]
+
+/-- … with other labels (a sub-selection `fdata[1:3]`, labels 1, 2) it is not. -/
+theorem to_long_ids_counterexample :
+    toLongIrrImpl [(1, ⟨[1], [some 5]⟩), (2, ⟨[1], [some 7]⟩)] ≠
+      toLongIrr [(1, ⟨[1], [some 5]⟩), (2, ⟨[1], [some 7]⟩)] := by
+  decide
+
+/-- Open finding (2-D rescale/standardize): `np.diag` rejects the squeezed 4-D covariance
+array of 2-D data, and accepts the 2-D one of 1-D data. -/
+theorem np_diag_rejects_4d (m₁ m₂ : ℕ) : npDiagShape [m₁, m₁, m₂, m₂] = none := rfl
+
+theorem np_diag_accepts_2d (m : ℕ) : npDiagShape [m, m] = some [m] := by
+  simp [npDiagShape]
+
+/-- What 2-D `rescale()` should return (and returns with the proposed repair): the integral
+of the pointwise population variance of the evaluated surfaces. -/
+theorem rescale_weight_2d_spec (N K m₁ m₂ : ℕ) (t₁ t₂ : ℕ → ℚ) (c : ℕ → ℕ → ℚ)
+    (Φ : ℕ → ℕ → ℕ → ℚ) (h₁ : 2 ≤ m₁) (h₂ : 2 ≤ m₂) :
+    rescaleWeightBasis2 N K m₁ m₂ t₁ t₂ c Φ =
+      ∑ a ∈ range m₁, ∑ b ∈ range m₂, trapzW m₁ t₁ a * trapzW m₂ t₂ b *
+        popVar N (toGrid K c (fun k p => Φ k (p / m₂) (p % m₂))) (a * m₂ + b) := by
+  unfold rescaleWeightBasis2 rescaleWeight2 integrate2
+  rw [FDA.trapz_eq_weights m₂ t₂ _ h₂]
+  simp_rw [FDA.trapz_eq_weights m₁ t₁ _ h₁, Finset.mul_sum]
+  rw [Finset.sum_comm]
+  apply Finset.sum_congr rfl; intro a ha
+  apply Finset.sum_congr rfl; intro b hb
+  rw [cov2_commutes N K m₁ m₂ c Φ a a b b (mem_range.mp ha) (mem_range.mp ha) (mem_range.mp hb)
+    (mem_range.mp hb)]
+  unfold covGrid2Spec popVar
+  ring
+
 /-! ## CSV loading -/
 
 /-- Integer column labels are the abscissae … -/
